@@ -170,7 +170,8 @@ func (eid *EndpointID) UnmarshalCbor(r io.Reader) error {
 		eid.EndpointType = tmpEt.Elem().Interface().(EndpointType)
 	}
 
-	return nil
+	// An invalid EndpointID, e.g., ipn:0.1, must not be accepted, as it can neither be used nor be marshalled again.
+	return eid.CheckValid()
 }
 
 // MarshalJSON writes the JSON representation of an EndpointID, which is the String representation.
